@@ -183,6 +183,12 @@ def decide(prop, tier, seed, repo, workdir, a, t0):
         same_prop_concrete = bool(new_e3)
         path = rp.write(rec, prop, name)
         in_baseline = baseline.get(name.split("@")[0] + "@" + r["config"], baseline.get(name)) == "proved" or not baseline
+        if not in_baseline:
+            # a *new* store site inside a function whose whole frame contract held on the pinned tree
+            import re as _re
+            m = _re.match(r"(frame\.store_sites/frame\[[^\]]+\])", name)
+            if m and any(k.startswith(m.group(1)) for k in baseline):
+                in_baseline = True
         if reproduced or same_prop_concrete:
             violations.append((path, "E1 obligation failed: %s" % name, ""))
         elif in_baseline:
